@@ -73,6 +73,31 @@ impl Score {
     fn is_table(&self) -> bool {
         matches!(self, Score::Table { .. })
     }
+    fn is_symmetric(&self) -> bool {
+        match self {
+            Score::Simple { .. } => true,
+            Score::Table { sigma, t } => {
+                let n = *sigma as usize;
+                (0..n).all(|i| (0..n).all(|j| t[i * n + j] == t[j * n + i]))
+            }
+        }
+    }
+    /// the same scoring with the two arguments exchanged
+    fn transposed(&self) -> Score {
+        match self {
+            Score::Simple { .. } => self.clone(),
+            Score::Table { sigma, t } => {
+                let n = *sigma as usize;
+                let mut u = t.clone();
+                for i in 0..n {
+                    for j in 0..n {
+                        u[i * n + j] = t[j * n + i];
+                    }
+                }
+                Score::Table { sigma: *sigma, t: u }
+            }
+        }
+    }
 }
 
 #[derive(Clone, Debug)]
@@ -198,20 +223,28 @@ pub mod linear {
         ensure!(c.gap <= 0 && c.gap_extend <= 0, "harness: positive gap penalty generated");
         ensure!(c.score.covers(r) && c.score.covers(q), "harness: symbols outside the score table");
         ensure!(!r.contains(&b'X') && !q.contains(&b'X'), "harness: wildcard X generated");
-        let expect = nw(r, q, &c.score, c.gap);
+        // The substitution function is called as f(reference symbol, query symbol) or the other way
+        // round: the property does not fix the convention, but ONE convention must hold for the
+        // whole computation. For asymmetric tables both optima are computed and the one the global
+        // score matches is then demanded of the path and of the banded run.
+        let expect_rq = nw(r, q, &c.score, c.gap);
+        let transposed = c.score.transposed();
+        let expect_qr = nw(r, q, &transposed, c.gap);
 
         let mut al = aligner(&c.score, c.gap, c.gap_extend, r);
         let a = al.global(q).alignment();
         ensure!(
-            a.score as i64 == expect,
-            "global: reference {:?} query {:?} scoring {:?} gap {}: score {} but Needleman-Wunsch optimum is {}",
-            lossy(r), lossy(q), c.score, c.gap, a.score, expect
+            a.score as i64 == expect_rq || a.score as i64 == expect_qr,
+            "global: reference {:?} query {:?} scoring {:?} gap {}: score {} but the Needleman-Wunsch optimum is {} (function applied as f(reference, query)) or {} (as f(query, reference))",
+            lossy(r), lossy(q), c.score, c.gap, a.score, expect_rq, expect_qr
         );
+        let (expect, conv_score) = if a.score as i64 == expect_rq { (expect_rq, c.score.clone()) } else { (expect_qr, transposed.clone()) };
+        let c_score_for_path = conv_score;
         let ops = match ops_of(&a) {
             Ok(o) => o,
             Err(e) => fail!("{}", e),
         };
-        let walk = match validate_linear(&ops, r, q, &c.score, c.gap) {
+        let walk = match validate_linear(&ops, r, q, &c_score_for_path, c.gap) {
             Ok(w) => w,
             Err(e) => fail!("global: reference {:?} query {:?} scoring {:?} gap {}: operations {:?} are not an alignment of the query to the reference: {}", lossy(r), lossy(q), c.score, c.gap, ops, e),
         };
@@ -247,6 +280,7 @@ pub mod linear {
         pass.add_if(r.len() != q.len(), "lengths differ");
         pass.add_if(c.gap == 0, "gap penalty 0");
         pass.add_if(c.score.is_table(), "table scoring");
+        pass.add_if(!c.score.is_symmetric() && expect_rq != expect_qr, "asymmetric table: argument order matters");
         pass.add_if(c.band_extra == 0, "bandwidth = max(lengths)");
         pass.add_if(expect < 0, "negative optimum");
         pass.add_if(walk.gaps >= 3, ">=3 gap columns");
@@ -344,6 +378,8 @@ fn score(sigma: u8) -> BoxedStrategy<Score> {
         3 => (0i32..=3, -3i32..=0).prop_map(|(m, x)| Score::Simple { m, x }),
         // symmetric table, arbitrary entries
         1 => proptest::collection::vec(-3i32..=3, n * n).prop_map(move |v| symmetric(sigma, v)),
+        // asymmetric table, arbitrary entries
+        1 => proptest::collection::vec(-3i32..=3, n * n).prop_map(move |v| Score::Table { sigma, t: v }),
         // symmetric table, positive diagonal, non-positive elsewhere
         1 => (proptest::collection::vec(1i32..=3, n), proptest::collection::vec(-3i32..=0, n * n)).prop_map(move |(d, mut v)| {
             for i in 0..n {
@@ -502,13 +538,24 @@ pub mod history {
         let mut pass = Pass::new(c.steps.len() >= 2);
         for (k, st) in c.steps.iter().enumerate() {
             let q: &[u8] = &st.query;
-            match st.banded {
-                None => {
-                    al.global(q);
-                }
-                Some(e) => {
-                    al.global_banded(q, before.labels.len() + q.len() + e);
-                }
+            let a = match st.banded {
+                None => al.global(q).alignment(),
+                Some(e) => al.global_banded(q, before.labels.len() + q.len() + e).alignment(),
+            };
+            // while the graph still is the plain chain of the reference (only copies of it were absorbed)
+            // it is "a graph built from one sequence": the score must be the Needleman-Wunsch optimum,
+            // whatever the aligner object did before
+            let chain = before.labels == r && before.edges.len() + 1 == r.len() && (0..r.len().saturating_sub(1)).all(|i| before.edges.contains_key(&(i, i + 1)));
+            if chain {
+                let e1 = nw(r, q, &c.score, c.gap);
+                let e2 = nw(r, q, &c.score.transposed(), c.gap);
+                ensure!(
+                    a.score as i64 == e1 || a.score as i64 == e2,
+                    "{}: the graph is still the chain of the reference, but aligning query {:?} ({}) scores {} instead of the Needleman-Wunsch optimum {}",
+                    describe(c, k), lossy(q), if st.banded.is_some() { "global_banded" } else { "global" }, a.score, e1
+                );
+                pass.add("score checked on a chain graph inside a history");
+                pass.add_if(k > 0, "score checked on a chain graph after earlier additions");
             }
             al.add_to_graph();
             let after = snap(al.graph());
@@ -597,7 +644,7 @@ pub fn property() -> Property {
         rule: "linear: reference (1..14, a tenth 15..40) and query (copy, 1-4 edits of the reference, or random, 1..14) over 1-3 letters (never X), match/mismatch scores or a symmetric score table, per-base gap penalty -3..0 (gap_extend arbitrary); global() score = textbook Needleman-Wunsch, the operation list (read through the derived Serialize of poa::Alignment) consumes reference and query exactly and recomputes to the reported score, global_banded with bandwidth >= max(lengths) gives the same score; exhaustive: all reference/query pairs over {a,b} up to length 4 (6 thorough) under 7 scorings. history: 0-5 global/global_banded(bandwidth >= nodes+|query|) + add_to_graph steps; after every step: acyclic, old node labels unchanged, every old (source,target) edge present with summed weight >= before, node growth <= |query|, consensus() non-empty and spelled by a path; while only copies of the reference were added under a scoring that makes the identity alignment the unique optimum: node labels and consensus equal the reference. Non-trivial = linear: query != reference with at least one gap column in the returned optimal alignment; history: at least 2 additions. Distinct = distinct serialised case.",
         assumptions: &[
             "sequences never contain the symbol X (add_alignment treats a query X as a wildcard that is absorbed by any node)",
-            "score tables are symmetric (the argument order of the match function is not part of the property)",
+            "the argument order of the match function is not part of the property: for asymmetric tables either f(reference, query) or f(query, reference) is accepted, but consistently for score, path and banded run",
             "the clause 'adding the reference leaves nodes and consensus equal to it' is asserted only when equal symbols score >= 1 and different symbols <= 0 (otherwise other alignments of a sequence with itself are equally optimal and may legitimately add nodes)",
             "the empty series of additions is a series: consensus of the reference-only graph must be the reference",
             "scoring uses Scoring::new (no clip penalties configured)",
@@ -611,7 +658,7 @@ pub fn property() -> Property {
                 shards_thorough: 16,
                 strat: linear::strat,
                 check: linear::check,
-                must_reach: &["query != reference, gap in optimal alignment", "query identical to reference", "reference length 1", "bandwidth = max(lengths)", "table scoring"],
+                must_reach: &["query != reference, gap in optimal alignment", "query identical to reference", "reference length 1", "bandwidth = max(lengths)", "table scoring", "asymmetric table: argument order matters"],
                 watch: true,
             }),
             Box::new(ExhSub { name: "C16/linear-exhaustive", enumerate: linear::enumerate, check: linear::check, must_reach: &["reference length 1"] }),
@@ -623,7 +670,7 @@ pub fn property() -> Property {
                 shards_thorough: 16,
                 strat: history::strat,
                 check: history::check,
-                must_reach: &["history length >= 2", "reference length 1", "graph without edges", "reference added repeatedly (identity clause checked)", "branching graph", "banded step", "edge weight >= 3"],
+                must_reach: &["history length >= 2", "reference length 1", "graph without edges", "reference added repeatedly (identity clause checked)", "branching graph", "banded step", "edge weight >= 3", "score checked on a chain graph after earlier additions"],
                 watch: true,
             }),
         ],
